@@ -140,6 +140,10 @@ def parseCDecl : Sexp → Option CDecl
   | .list [.atom "nonDelay", r] => do some (.nonDelay (← r.asStr?))
   | .list [.atom "distance", r, d, ivs, m] => do
       some (.distance (← r.asStr?) (← d.asInt?) (← asOpt? (asList? parsePair) ivs) (← parseCountKind m))
+  | .list [.atom "interrupted", r, ivs] => do some (.interrupted (← r.asStr?) (← asList? parsePair ivs))
+  | .list [.atom "periodicallyUnavailable", r, ivs, p, st, off, en] => do
+      some (.periodicallyUnavailable (← r.asStr?) (← asList? parsePair ivs) (← p.asInt?) (← st.asInt?) (← off.asInt?)
+        (← asOpt? asInt? en))
   | .list [.atom "sameWorkers", a, b] => do some (.sameWorkers (← a.asNat?) (← b.asNat?))
   | .list [.atom "distinctWorkers", a, b] => do some (.distinctWorkers (← a.asNat?) (← b.asNat?))
   | .list [.atom "unloadBuffer", t, b, q] => do some (.unloadBuffer (← t.asStr?) (← b.asStr?) (← q.asInt?))
